@@ -40,4 +40,10 @@ var props = map[string]propSpec{
 		requiredProbes: []string{"scrape-judged", "counter-judged", "scrape-while-closed-or-closing"}},
 	"C11": {level: "exploration", quickRuns: 2500, thoroughRuns: 50000, runLimit: 30 * time.Second,
 		requiredProbes: []string{"reopen-judged", "notification-during-close", "notification-during-delay", "notification-while-reopening", "burst-of-several-notifications", "notification:api-rebalance"}},
+	"C02": {level: "exploration", quickRuns: 2500, thoroughRuns: 60000, runLimit: 30 * time.Second,
+		requiredProbes: []string{"checkpoint-written", "latest-reset", "read-only-session", "seeded:>=2^63", "seeded:2^53..2^63", "seeded:0"}},
+	"C08": {level: "exploration", quickRuns: 2500, thoroughRuns: 60000, runLimit: 30 * time.Second,
+		requiredProbes: []string{"rollback-honoured", "rollback:R=F", "rollback:R=0", "rollback:R<F", "event-exactly-at-F", "second-rollback", "re-request-failed"}},
+	"C15": {level: "fault_enumeration", quickRuns: 2000, thoroughRuns: 40000, runLimit: 30 * time.Second,
+		requiredProbes: []string{"startup-fault:none", "startup-fault:ckpt-above-high", "startup-fault:load-error", "startup-fault:load-silent", "startup-fault:seqnos-error", "startup-fault:flog-error", "startup-fault:sreq-error", "startup-fault:sreq-silent", "startup-fault:bad-membership", "startup-fault:bad-metadata"}},
 }
